@@ -35,6 +35,8 @@ def surf_cfgs(tier):
         "symL_2x3": K.surface(2, 3, True),
         "full_2x3": K.surface(2, 3, False),
         "symR_2x3": K.surface(2, 3, True, right=True),
+        # three chordwise nodes: index patterns that silently assume nx == 2 (leading / trailing edge rows, panel offsets)
+        "symL_3x2": K.surface(3, 2, True),
     }
     if tier == "thorough":
         c.update({
@@ -238,7 +240,7 @@ def build_cases(tier):
         C.append(Case("ShearX[%s]" % cn, F(G, "ShearX", val=np.zeros(ny), mesh_shape=shp)))
         C.append(Case("ShearY[%s]" % cn, F(G, "ShearY", val=np.zeros(ny), mesh_shape=shp)))
         C.append(Case("ShearZ[%s]" % cn, F(G, "ShearZ", val=np.zeros(ny), mesh_shape=shp)))
-    per_surface("RadiusComp", "geometry.radius_comp", "RadiusComp", names=["symL_2x3", "full_2x3"])
+    per_surface("RadiusComp", "geometry.radius_comp", "RadiusComp", names=["symL_2x3", "full_2x3", "symL_3x2"])
     per_surface("MonotonicConstraint", "geometry.monotonic_constraint", "MonotonicConstraint",
                 names=["symL_2x3", "full_2x3"], comp_kw={"var_name": "chord"})
     secs = multi_sections(3 if tier == "thorough" else 2)
